@@ -70,6 +70,11 @@ class Ctx:
         self.notes: dict = {}
 
     # ---- accumulation
+    def tick(self, label: str):
+        now = time.time()
+        self.notes.setdefault("phase_seconds", {})[label] = round(now - getattr(self, "_last_tick", self.t0), 1)
+        self._last_tick = now
+
     def pick(self, quick, thorough):
         return quick if self.quick else thorough
 
@@ -99,6 +104,7 @@ class Ctx:
             raise MachineryError(f"specification instance {cfg} violates {res.violated}:\n"
                                  f"{res.output[-2500:]}")
         self.add_model_check(cfg, res, note)
+        self.tick(f"tlc:{cfg}")
         cases = None
         if out is not None:
             cases = json.loads(out.read_text())
@@ -139,6 +145,7 @@ class Ctx:
                     rejected.append((start + k - 1, prog.get(k, 0)))
             self.cov["trace_validation_states"] = self.cov.get("trace_validation_states", 0) + res.distinct
         self.cov["traces_validated_against_impl"] += n_ok
+        self.tick(f"validate:{label}")
         return rejected
 
     # ---- verdicts
